@@ -102,6 +102,8 @@ def cases_for(rng, tier):
         cases.append({"sb": sbv(), "ops": histgen.gen_mixed(rng, nops=rng.choice([30, 60]), sessions=rng.choice([2, 3]), fail_rate=0.05, **G), "gen": "sessions"})
     for i in range(160 if q else 4000):
         cases.append({"sb": sbv(), "ops": histgen.gen_tail_kind(rng, **G), "gen": "tail-kind"})
+    for i in range(80 if q else 2000):       # an object of each kind, a neighbour right behind it, then its header grows (overlap clause)
+        cases.append({"sb": sbv(), "ops": histgen.gen_grow_with_neighbour(rng, **G), "gen": "grow-neighbour"})
     for i in range(350 if q else 9000):
         cases.append({"sb": sbv(), "ops": c02.one_history(rng, rng.choice([3, 8, 15, 30, 60, 120]), spec_safe=True), "gen": "attrs"})
     for i in range(240 if q else 6000):
